@@ -94,7 +94,10 @@ def checks(ctx, rep):
                 reported.add(clause)
                 rep.violation(clause, site, msg + "; " + tag, case)
         last_neigh = None
+        after_poll = False
         for k, e in t["events"]:
+            if k == "POLL":
+                after_poll = True
             if k == "LOCALFIT":
                 stats["localfits"] += 1
                 stats["localfits_in_faulted_runs"] += bool(t.get("gp_faults"))
@@ -117,6 +120,13 @@ def checks(ctx, rep):
                 stats["repeated_point_logs"] += len({tuple(r) for r in logX}) < n
                 stats["per_coord_len_scale"] += isinstance(e["len_scale"], list)
                 stats["neigh_truncated"] += len(X) < n
+                # ---- the reference point of the selection is the CURRENT incumbent (not whatever point the caller handed over) ----
+                # (checked at the first selection after a poll step: within a round of searches the centre deliberately stays where the round began)
+                if e.get("u_best") is not None and e["phase"] in ("search", "poll") and after_poll:
+                    after_poll = False
+                    stats["ref_point_checked"] = stats.get("ref_point_checked", 0) + 1
+                    if e["u_best"] != e["u"]:
+                        viol("centred_on_incumbent", SITE_N, f"the training set is selected around {e['u']} while the current incumbent is {e['u_best']} ({e['phase']} step)")
                 # ---- clauses on the implementation's training set ----
                 rows = {}
                 for i in range(n):
@@ -163,7 +173,8 @@ def checks(ctx, rep):
                     viol("add_one_row", SITE_A, f"posterior update changed the training set size from {e['n_before']} to {e['n_after']}")
                 if e["last_X"] != e["x_new"] or e["last_y"] != e["y_new"]:
                     viol("added_pair_is_evaluated", SITE_A, "the appended training pair is not the evaluated point with its value")
-                merged = e["log_last_X"] != e["x_new"]
+                # merged into an existing record: the record is another row, or it is the last row and holds more than one observation
+                merged = e["log_last_X"] != e["x_new"] or e.get("log_last_n", 1) > 1
                 stats["merged_adds"] += merged
                 if not merged and e["log_last_Y"] != e["y_new"]:
                     viol("added_pair_is_log_row", SITE_A, f"appended value {e['y_new']} differs from the logged value {e['log_last_Y']}")
